@@ -125,7 +125,10 @@ func (s Stmt) render(i int) string {
 	case "hash":
 		return fmt.Sprintf("{ my %%h = (a => %d, 'b\\'c' => %d); print join(\",\", map { \"$_=$h{$_}\" } sort keys %%h), \"\\n\"; }\n", s.N, s.M)
 	case "comment":
-		return "# " + strings.NewReplacer("\n", " ", "\r", " ").Replace(string(s.Bytes)) + "\n"
+		// comments carry arbitrary bytes except NUL: the quantifier puts "all byte
+		// values" into string literals, not comments, and leading comments are
+		// copied into the shell file, where bash 5.2 mishandles consecutive NULs
+		return "# " + strings.NewReplacer("\n", " ", "\r", " ", "\x00", "0").Replace(string(s.Bytes)) + "\n"
 	case "blank":
 		return "\n"
 	case "exit":
